@@ -810,6 +810,18 @@ func (g *gctx) aliasIdiom() *Stmt {
 			U = cur.T
 		default:
 			U = g.pickType("idiomcast")
+			if cur.T.Signed() && g.chance(60, "idiomwiden") {
+				// A signed widening cast when the pool has one.
+				var wider []Type
+				for _, P := range g.pool {
+					if P.Signed() && P.N > cur.T.N {
+						wider = append(wider, P)
+					}
+				}
+				if len(wider) > 0 {
+					U = wider[g.intn(0, len(wider)-1, "idiomwider")]
+				}
+			}
 			e = g.castTo(cur, U)
 		}
 		if l == 0 && e == cur {
@@ -829,9 +841,19 @@ func (g *gctx) aliasIdiom() *Stmt {
 	// vA is not registered in the scope: it is dead after the aliases.
 	c := g.fresh()
 	Tc := g.pickType("idiomtype2")
+	if g.chance(60, "idiomsamewidth") {
+		// A computed value exactly as wide as the dead source: it gets
+		// the source's wire ids when they were recycled.
+		Tc = T
+	}
 	ec, _ := g.intExpr(Tc, g.intn(1, g.o.MaxDepth, "idiomdepth2"), true)
 	g.top()[c] = &varInfo{T: Tc, Dyn: true}
 	g.pending = append(g.pending, &Stmt{K: SDefine, Name: c, E: ec})
+	if g.fn.Name == "main" {
+		// Keep the last alias (and the value computed after it) live up
+		// to the final return.
+		g.sink = append(g.sink, named{cur.Name, g.top()[cur.Name]}, named{c, g.top()[c]})
+	}
 	return first
 }
 
@@ -974,6 +996,37 @@ func (g *gctx) ifStmt() (*Stmt, bool) {
 
 	cond, _ := g.boolExpr(g.intn(0, g.o.MaxDepth, "conddepth"), true)
 	s := &Stmt{K: SIf, E: cond}
+	if g.chance(10, "litphi") {
+		// Literal phi: both arms assign literals to the same one or two
+		// variables (crosswise), so the merge selects between constants.
+		c := g.assignable(func(t Type) bool { return t.IsInt() && t.N >= 2 })
+		if len(c) > 0 {
+			n := 1
+			if len(c) > 1 && g.chance(60, "litphi2") {
+				n = 2
+			}
+			first := g.intn(0, len(c)-n, "litphivar")
+			for i := 0; i < n; i++ {
+				nv := c[first+i]
+				la, lb := g.literal(nv.v.T), g.literal(nv.v.T)
+				s.Then = append(s.Then, &Stmt{K: SAssign, Name: nv.name, E: la})
+				s.Else = append(s.Else, &Stmt{K: SAssign, Name: nv.name, E: lb})
+				// The merge of two different constants under an
+				// input-dependent condition is a run-time value
+				// (a phi instruction with constant operands).
+				va, _ := new(big.Int).SetString(la.Val, 0)
+				vb, _ := new(big.Int).SetString(lb.Val, 0)
+				nv.v.Dyn = va != nil && vb != nil && va.Cmp(vb) != 0
+				if nv.v.Dyn && g.fn.Name == "main" {
+					g.sink = append(g.sink, nv)
+				}
+				if nv.v.WO && g.ifDepth%100 == 1 && len(g.loops) == 0 {
+					nv.v.WO = false
+				}
+			}
+			return s, false
+		}
+	}
 	allowReturn := !noReturn && len(g.loops) == 0 && g.returnable()
 
 	pre := cloneScopes(g.scopes)
@@ -1336,6 +1389,13 @@ func Draw(t *rapid.T, o Opts) *Prog {
 		} else {
 			g.pool = append(g.pool, Uint(w))
 		}
+	}
+	if o.AliasHeavy && o.MaxWidth >= 4 && g.chance(40, "signedpair") {
+		// Two signed types of different widths: widening signed casts
+		// (smov) between pool types.
+		w := g.intn(2, min(64, o.MaxWidth-1), "pairwidth")
+		d := g.intn(1, min(40, o.MaxWidth-w), "pairdelta")
+		g.pool = append(g.pool, Int(w), Int(w+d))
 	}
 	g.pool = append(g.pool, o.PoolTypes...)
 	if o.Structs && g.chance(55, "hasstruct") {
